@@ -52,6 +52,13 @@ def run(ctx: Ctx, rep: Report) -> None:
     from ..rules.mirror import rule_mirror
     it = 'bqskit/ir/iterator.py:CircuitGridIterator.'
     rule_mirror(ctx, rep, it + 'increment_iter', it + 'decrement_iter')
+    # radix-generic code never falls back to qubits
+    from ..rules.radixdrop import rule_pow2
+    from ..rules.radixdrop import rule_radixdrop
+    rule_radixdrop(ctx, rep, (
+        'bqskit/ir/circuit.py', 'bqskit/qis/', 'bqskit/ir/gates/'), 15)
+    rule_pow2(ctx, rep, (
+        'bqskit/qis/unitary/', 'bqskit/qis/state/', 'bqskit/ir/circuit.py'))
 
 
 def _loops_over_ops(f) -> list[ast.For]:
